@@ -33,7 +33,14 @@ class Shape:
     trivial: bool
     defaults: tuple          # of (kind, src)  kind in no|val|fac
     values: tuple            # python source of raw values (None only where the type admits it)
-    fty_term: str = ""       # OptProj.fty term; derived from ty when empty
+    fty_term: str = ""       # OptProj.fty term (the RESOLVED type); derived from ty when empty
+    dty_term: str = ""       # K17Proofs.dty term (the DECLARED type); DTy <fty> when empty
+    bound_var: bool = False  # declared with a type variable left unbound whose bound admits None (known finding
+                             # omit-none-typevar-bound): tynull is what the property needs, fty_term what the code sees
+
+    @property
+    def dty(self) -> str:
+        return self.dty_term or f"(DTy {self.fty})"
 
     @property
     def fty(self) -> str:
@@ -93,7 +100,29 @@ SHAPES = [
     Shape("optfloat", "Optional[float]", True, True, (("val", "float('nan')"), ("val", "None")),
           ("None", "float('nan')", "1.0")),
 ]
+# the field `gv: T` of a generic dataclass, as the specialisation sees it (OptProj.fty is the RESOLVED type, K17Proofs.dty
+# the declared one: the variable with its binding)
+GENERIC_SHAPES = {
+    "": Shape("tv_any", "T", True, True, (("no", None),), ("None", "1", "'q'"), "TyTypeVarAny"),     # bare G: T unbound
+    "int": Shape("tv_int", "T", False, True, (("no", None),), ("1", "0", "7"), "TyPlain", "(DVar TyPlain)"),
+    "date": Shape("tv_date", "T", False, False, (("no", None),), ("date(2020, 1, 1)", "date(1999, 9, 9)"), "TyPlain", "(DVar TyPlain)"),
+    # T bound to Optional[...] / a wider union with None / Any: is_field_nullable resolves the variable first
+    # (/repo 4da7e9e, was finding omit-none-typevar-optional) -> nullable like the binding
+    "Optional[int]": Shape("tv_optint", "T", True, True, (("no", None),), ("None", "5", "3"), "TyOptional", "(DVar TyOptional)"),
+    "Optional[date]": Shape("tv_optdate", "T", True, False, (("no", None),), ("None", "date(2020, 1, 1)", "date(1999, 9, 9)"),
+                            "TyOptional", "(DVar TyOptional)"),
+    "Union[int, str, None]": Shape("tv_wide", "T", True, True, (("no", None),), ("None", "5", "'s'"), "TyUnionNone", "(DVar TyUnionNone)"),
+    "Any": Shape("tv_bound_any", "T", True, True, (("no", None),), ("None", "'q'", "1"), "TyAny", "(DVar TyAny)"),
+}
+# the second field `ga: Annotated[T, 'm']` of the same classes
+GENERIC_ANN_SHAPES = {
+    targ: replace(sh, key="a" + sh.key, ty="Annotated[T, 'm']", fty_term=f"(TyAnnotated {sh.fty})",
+                  dty_term=f"(DAnnotated {sh.dty})") for targ, sh in GENERIC_SHAPES.items()}
+# `gv: B`, B = TypeVar("B", bound=Optional[int]), in a class nobody specialises: the packer treats the field as its bound
+# (None is a conforming value), is_field_nullable looks at the variable (not nullable)
+BOUND_SHAPE = Shape("tvb_optint", "B", True, True, (("no", None),), ("None", "5", "3"), "TyPlain", "(DVarBound TyOptional)", True)
 SHAPE = {s.key: s for s in SHAPES}
+SHAPE.update({s.key: s for s in list(GENERIC_SHAPES.values()) + list(GENERIC_ANN_SHAPES.values()) + [BOUND_SHAPE]})
 
 
 @dataclass(frozen=True)
@@ -157,12 +186,14 @@ HEADER = """import enum
 from dataclasses import dataclass, field
 from datetime import date
 from pathlib import PurePosixPath
-from typing import Annotated, Any, Dict, Final, List, Optional, Tuple, Union
+from typing import Annotated, Any, Dict, Final, Generic, List, Optional, Tuple, TypeVar, Union
 from mashumaro import DataClassDictMixin
 from mashumaro.config import (BaseConfig, TO_DICT_ADD_OMIT_NONE_FLAG, TO_DICT_ADD_BY_ALIAS_FLAG,
                               ADD_DIALECT_SUPPORT, ADD_SERIALIZATION_CONTEXT)
 from mashumaro.dialect import Dialect
 from mashumaro.mixins.toml import DataClassTOMLMixin
+T = TypeVar("T")
+B = TypeVar("B", bound=Optional[int])
 class Color(enum.Enum):
     RED = 1
     BLUE = 2
@@ -372,7 +403,7 @@ def equals_default(raw, d) -> bool:
     return bool(raw == d)
 
 
-def project(e: dict, fields: list[FieldSpec], defaults: dict, inst, plain: dict, sub=None) -> dict:
+def project(e: dict, fields: list[FieldSpec], defaults: dict, inst, plain: dict, sub=None, keep_none=()) -> dict:
     names = [f.name for f in fields]
     assert list(plain.keys()) == names, (list(plain.keys()), names)
     by = {f.name: f for f in fields}
@@ -384,7 +415,7 @@ def project(e: dict, fields: list[FieldSpec], defaults: dict, inst, plain: dict,
         v = plain[n] if sub is None or n not in sub else sub[n]
         if f.omit:
             continue
-        if e["on"] and plain[n] is None:
+        if e["on"] and plain[n] is None and n not in keep_none:
             continue
         if e["od"] and n in defaults and equals_default(getattr(inst, n), defaults[n]):
             continue
@@ -577,16 +608,66 @@ def coq_case(o: Opts, fields, defaults, inst, plain: dict, observed, real_nullab
             f"{coq_list(coq_bool(b) for b in (real_nullable or []))}))")
 
 
-def real_nullables(ns: dict, cls: str, fields) -> list | None:
-    """CodeBuilder.is_field_nullable of the REAL class for every field (tie of the harness's shape table and of
-    the model's `nullable` to the implementation); None when the method does not exist"""
+def real_nullables(ns: dict, cls: str, fields, type_args: tuple = ()) -> list:
+    """CodeBuilder.is_field_nullable of the REAL class (specialised with type_args) for every field: tie of the harness's
+    shape table and of the model's `nullable` to the implementation.  Fails closed: if the builder cannot be asked, the
+    answer has the wrong length and every comparison with it is a mismatch."""
     try:
         from mashumaro.core.meta.code.builder import CodeBuilder
-        b = CodeBuilder(ns[cls])
+        b = CodeBuilder(ns[cls], type_args)
+        b.reset()                # resolved_type_params (get_real_type needs them)
         ft = b.get_field_types(include_extras=True)
         return [bool(b.is_field_nullable(f.name, ft[f.name])) for f in fields]
     except Exception:
-        return None
+        return [True] * (len(fields) + 1)
+
+
+EMIT_DEFS = """
+(* the text the TRANSLATED emitters (kernel K108a) produce = the text the real ones wrote on the real class *)
+Definition ecase_ok (c: kv * string * bool * bool * string * option string * bool * bool * list string) : bool :=
+  match c with (dv, lit, isnan, sba, fname, al, baf, od, expected) =>
+    match set_value dv (KStr lit) (KBool isnan) (KBool sba) (KStr fname) (match al with Some a => KStr a | None => KNone end)
+                    (KBool baf) (KStr "<packed>") (KBool od) with
+    | Ok l => strs_eqb (render 6 "" l) expected
+    | _ => false end end.
+"""
+
+
+def repr_simple(s: str) -> bool:
+    """str whose repr OptEmit.py_repr renders: printable ASCII, no backslash, not both kinds of quotes"""
+    return all(32 <= ord(c) < 127 and c != "\\" for c in s) and not ("'" in s and '"' in s)
+
+
+def emitted_cases(ns: dict, cls: str, fields, dialect, ecases: dict):
+    """_pack_method_set_value of a REAL builder of the class for every field x by_alias feature x omit_default: the lines
+    it writes, next to the arguments the translated emitter gets.  Fails closed (a case that never holds)."""
+    from dataclasses import MISSING
+    try:
+        from mashumaro.core.meta.code.builder import CodeBuilder
+        b = CodeBuilder(ns[cls], dialect=dialect)
+        b.reset()
+        sba = bool(b.get_dialect_or_config_option("serialize_by_alias", False))
+        literal_of = b.get_field_default_literal
+        for f in fields:
+            if not repr_simple(f.name) or (f.alias is not None and not repr_simple(f.alias)):
+                continue
+            default = b.get_field_default(f.name, call_factory=True)
+            has = default is not MISSING
+            lit = literal_of(default) if has else ""
+            # the literal of a default without a Python literal is a fresh name on every call: the emitter under test gets the
+            # one computed here (the abstraction a_default_literal of kernel K108a)
+            b.get_field_default_literal = lambda v, _l=lit: _l
+            isnan = isinstance(default, float) and math.isnan(default)
+            for baf in (False, True):
+                for od in (False, True):
+                    b.lines.reset()
+                    b._pack_method_set_value(f.name, f.alias, baf, "<packed>", od)
+                    text = b.lines.as_text().split("\n")
+                    al = "None" if f.alias is None else f"(Some {coq_str(f.alias)})"
+                    ecases[f"({'(KObj 7)' if has else 'KMissing'}, {coq_str(lit)}, {coq_bool(isnan)}, {coq_bool(sba)}, "
+                           f"{coq_str(f.name)}, {al}, {coq_bool(baf)}, {coq_bool(od)}, {coq_list(coq_str(t) for t in text)})"] = None
+    except Exception as ex:
+        ecases[f"(KMissing, \"\", false, false, \"\", None, false, false, []) (* {type(ex).__name__} *)"] = None
 
 
 # ---------------------------------------------------------------------------
@@ -718,9 +799,11 @@ class DcField:
     many: bool = False        # List[<class>] with default_factory=list
     mapping: bool = False     # Dict[str, <class>] with default_factory=dict
 
-    def ty(self, prefix: str) -> str:
-        t = prefix + str(self.members[0]) if len(self.members) == 1 else \
-            "Union[" + ", ".join(prefix + str(m) for m in self.members) + "]"
+    def ty(self, prefix: str, table=None) -> str:
+        def ref(m):       # a generic class is referenced as C<m>[<its type argument>] (bare when it has none)
+            c = table[m] if table is not None else None
+            return prefix + str(m) + (f"[{c.targ}]" if c is not None and c.generic and c.targ else "")
+        t = ref(self.members[0]) if len(self.members) == 1 else "Union[" + ", ".join(ref(m) for m in self.members) + "]"
         if self.many:
             return f"List[{t}]"
         if self.mapping:
@@ -737,13 +820,16 @@ class NCls:
     n_inh: int = 0
     own_cfg: bool = True
     cfg_owner: int = -1       # class whose CfgD<id> dialect class o.cfgd refers to
+    generic: bool = False     # class C(Generic[T]) with the fields `gv: T` [, `ga: Annotated[T, 'm']`]; every reference uses the same targ
+    targ: str = ""
+    tvar: str = "T"           # "B": Generic[B] with `gv: B` (bounded variable; never specialised)
 
 
 LEAF_NESTED = [("optint", "val", "None"), ("int", "val", "1"), ("date", "no", None), ("optdate", "val", "None"),
                ("any", "val", "None"), ("int_none", "val", "None")]
 
 
-def gen_table(rng, unions: bool = True, inherit: bool = True) -> list[NCls]:
+def gen_table(rng, unions: bool = True, inherit: bool = True, generics: float = 0.3) -> list[NCls]:
     """class 0 is a mixin root; the others are mixin subclasses, plain dataclasses with a Config, or plain
     dataclasses without any Config; class i only refers to classes j > i"""
     n = rng.randint(2, 5)
@@ -759,7 +845,8 @@ def gen_table(rng, unions: bool = True, inherit: bool = True) -> list[NCls]:
             o = Opts(cfgd=gen_ns(rng, 0.45), cfg=gen_ns(rng, 0.3) or ("U", "U", "U"), sort=rng.random() < 0.3,
                      fon=fon, fba=fba, fdl=fdl, fcx=fcx, lazy=mixin and rng.random() < 0.2, cfg_style=gen_cfg_style(rng))
         later = list(range(cid + 1, n))
-        parent = rng.choice(later) if (inherit and later and rng.random() < 0.3) else None
+        bases = [j for j in later if not table[j].generic]       # a generic class is specialised by its users, not derived from
+        parent = rng.choice(bases) if (inherit and bases and rng.random() < 0.3) else None
         if parent is not None and len(table[parent].fields) > len(NAMES) - 3:
             parent = None                                # no free field names left for a further subclass
         inherited: tuple = ()
@@ -781,8 +868,17 @@ def gen_table(rng, unions: bool = True, inherit: bool = True) -> list[NCls]:
             if later and (rng.random() < 0.55 or (cid == 0 and i == 0)):
                 k = rng.random()
                 if unions and len(later) >= 2 and k < 0.3:
-                    mem = tuple(rng.sample(later, rng.randint(2, min(3, len(later)))))
-                    fields.append(DcField(nm, mem, False, al, False))
+                    mem = rng.sample(later, rng.randint(2, min(3, len(later))))
+                    # a specialised generic class is a union member only in first position, and only one of them: after
+                    # another member, that member's call `value.__mashumaro_to_dict__()` succeeds on the generic instance
+                    # with the UNSPECIALISED method -- already in the option-free twin (the plain output itself is off:
+                    # a defect of union packing, not of the options; reported, outside this property)
+                    spec = [m for m in mem if table[m].generic and table[m].targ]
+                    mem = tuple(spec[:1] + [m for m in mem if m not in spec])
+                    if len(mem) >= 2:
+                        fields.append(DcField(nm, mem, False, al, False))
+                    else:
+                        fields.append(DcField(nm, mem, rng.random() < 0.4, al, False))
                 elif k < 0.45:
                     fields.append(DcField(nm, (rng.choice(later),), False, al, rng.random() < 0.05, many=True))
                 elif k < 0.58:
@@ -792,7 +888,15 @@ def gen_table(rng, unions: bool = True, inherit: bool = True) -> list[NCls]:
             else:
                 sh, dk, ds = rng.choice(LEAF_NESTED)
                 fields.append(FieldSpec(nm, sh, dk, ds, al, rng.random() < 0.08))
-        table[cid] = NCls(o, tuple(inherited) + tuple(fields), mixin, parent, len(inherited), own_cfg, cfg_owner)
+        generic, targ = False, ""
+        if parent is None and rng.random() < generics:
+            # class C<cid>(Generic[T]) with the field `gv: T`; every user refers to it as C<cid>[targ] (bare for "")
+            generic, targ = True, rng.choice(list(GENERIC_SHAPES))
+            fields.insert(rng.randrange(len(fields) + 1),
+                          FieldSpec("gv", GENERIC_SHAPES[targ].key, "no", None, "GV" if rng.random() < 0.4 else None, False))
+            if rng.random() < 0.4:
+                fields.insert(rng.randrange(len(fields) + 1), FieldSpec("ga", GENERIC_ANN_SHAPES[targ].key, "no", None, None, False))
+        table[cid] = NCls(o, tuple(inherited) + tuple(fields), mixin, parent, len(inherited), own_cfg, cfg_owner, generic, targ)
     return table
 
 
@@ -831,7 +935,7 @@ def definition_order(rng, table) -> list[int]:
     return done
 
 
-def nfield_line(f, plain: bool) -> str:
+def nfield_line(f, plain: bool, table=None) -> str:
     if isinstance(f, FieldSpec):
         return field_line(f, plain)
     args = []
@@ -848,7 +952,7 @@ def nfield_line(f, plain: bool) -> str:
         md["serialize"] = "omit"
     if md:
         args.append(f"metadata={md!r}")
-    ty = f.ty("P" if plain else "C")
+    ty = f.ty("P" if plain else "C", table)
     return f"    {f.name}: {ty}" + (f" = field({', '.join(args)})" if args else "")
 
 
@@ -860,13 +964,32 @@ def table_source(table: list[NCls], call, order: list[int]) -> str:
         c = table[cid]
         if c.own_cfg and c.o.cfgd is not None:
             src += dialect_source(f"CfgD{cid}", c.o.cfgd)
-        src += class_source(f"C{cid}", [nfield_line(f, False) for f in c.fields[c.n_inh:]], c.o if c.own_cfg else None,
-                            cfgd_name=f"CfgD{cid}", mixin=c.mixin, base=f"C{c.parent}" if c.parent is not None else None)
+        src += class_source(f"C{cid}", [nfield_line(f, False, table) for f in c.fields[c.n_inh:]], c.o if c.own_cfg else None,
+                            cfgd_name=f"CfgD{cid}", mixin=c.mixin, base=class_base(c, "C"))
     for cid in order:
         c = table[cid]
-        src += class_source(f"P{cid}", [nfield_line(f, True) for f in c.fields[c.n_inh:]], None, mixin=c.mixin,
-                            base=f"P{c.parent}" if c.parent is not None else None)
+        src += class_source(f"P{cid}", [nfield_line(f, True, table) for f in c.fields[c.n_inh:]], None, mixin=c.mixin,
+                            base=class_base(c, "P"))
     return src
+
+
+def class_base(c: NCls, prefix: str) -> str | None:
+    if c.parent is not None:
+        return f"{prefix}{c.parent}"
+    if c.generic:
+        return f"DataClassDictMixin, Generic[{c.tvar}]" if c.mixin else f"Generic[{c.tvar}]"
+    return None
+
+
+def cls_ref(c: NCls, cid: int, prefix: str) -> str:
+    """the type expression users (fields, codecs) name the class by"""
+    return f"{prefix}{cid}" + (f"[{c.targ}]" if c.generic and c.targ else "")
+
+
+def bare_root_ok(c: NCls) -> bool:
+    """<instance>.to_dict() runs the method of the UNSPECIALISED class: for a generic class whose users bind T the field
+    `gv` has another resolved type there (an unconstrained variable), which the table's single plan does not describe"""
+    return c.mixin and not (c.generic and c.targ)
 
 
 def gen_tree(rng, table, cid: int, subs: bool = True, depth: int = 0):
@@ -971,7 +1094,19 @@ def walk(table, ns, t, inst, plain, members, outer, avail, mode: str, hits: dict
                                    mode, hits, codec) for k, y in x.items()}
         elif isinstance(f, DcField) and not isinstance(x, str):
             sub[f.name] = walk(table, ns, x, getattr(inst, f.name), plain[f.name], f.members, cls_flags(c), avail2, mode, hits, codec)
-    return project(e, fields, defaults, inst, plain, sub)
+    if codec is None and c.generic and c.targ and o.call is not None:
+        # known finding dialect-drops-type-args: the dialect-specific method of a specialised generic class is compiled (and
+        # cached per dialect) WITHOUT the type arguments: `gv: T` is packed as an unconstrained variable (the raw object)
+        raw = {f.name: getattr(inst, f.name) for f in fields if isinstance(f, FieldSpec) and f.name in ("gv", "ga")
+               and not f.sh.trivial and getattr(inst, f.name) is not None}
+        if raw:
+            hits["gdl"] = True
+            if mode == "kf":
+                sub.update(raw)
+    bound_none = [f.name for f in fields if isinstance(f, FieldSpec) and f.sh.bound_var and plain[f.name] is None]
+    if bound_none:
+        hits["tvb"] = True       # outside the model's domain (vals_ok: None in a field the code does not hold for nullable)
+    return project(e, fields, defaults, inst, plain, sub, keep_none=bound_none if mode == "kf" else ())
 
 
 # ---- Coq terms for the nested correspondence ----
@@ -1081,9 +1216,10 @@ def eval_nested(ctx: vlib.Ctx, table, order, src, ns, rid: int, t, kon, kba, rca
     rep["observed"] = repr(observed)
     enc = PvEnc()
     in_domain = not hits
-    ncases.append(f"({coq_table(table, ns, enc)}, ({rid}%nat, {coq_node(table, t, inst, plain, enc)}), "
-                  f"(K {coq_ob(kon)} {coq_ob(kba)} {coq_ns(rcall)}), (Some {coq_tree_value(observed, enc)}), {coq_bool(in_domain)})")
-    ninfo.append(rep)
+    if "gdl" not in hits:      # that corner is a property of the call path (dialect or not), not of the class plan: oracle only
+        ncases.append(f"({coq_table(table, ns, enc)}, ({rid}%nat, {coq_node(table, t, inst, plain, enc)}), "
+                      f"(K {coq_ob(kon)} {coq_ob(kba)} {coq_ns(rcall)}), (Some {coq_tree_value(observed, enc)}), {coq_bool(in_domain)})")
+        ninfo.append(rep)
     rep["_ok"] = typed(observed) == typed(expected)
     rep["_kf_zone"] = bool(hits)
     if typed(observed) != typed(expected):
@@ -1092,19 +1228,21 @@ def eval_nested(ctx: vlib.Ctx, table, order, src, ns, rid: int, t, kon, kba, rca
             h2: dict = {}
             predicted = walk(table, ns, t, inst, plain, (rid,), ALL_FLAGS, avail, "kf", h2)
             if typed(predicted) == typed(observed):
-                kind = ("subclass-instance-flags" if hits.get("sub") else
-                        "union-member-flags" if hits.get("d8b") else "call-dialect-vs-flag-defaults")
+                kind = ("dialect-drops-type-args" if hits.get("gdl") else
+                        "subclass-instance-flags" if hits.get("sub") else
+                        "union-member-flags" if hits.get("d8b") else
+                        "omit-none-typevar-bound" if hits.get("tvb") else "call-dialect-vs-flag-defaults")
         ctx.fail(f"nested {rep['instance']}.to_dict({kwargs_src(ro)}) = {observed!r}, hereditary projection of the plain "
                  f"output is {expected!r}"[:500], rep, {"kind": kind, "entry": stream})
     ctx.hist("form", "nested-kf-zone" if hits else "nested-in-domain")
 
 
-def run_nested(ctx: vlib.Ctx, ncases: list[str], ninfo: list):
+def run_nested(ctx: vlib.Ctx, ncases: list[str], ninfo: list, dcases: dict | None = None):
     rng = ctx.rng
     for _ in range(ctx.budget(150, 1500)):
         table = gen_table(rng)
         order = definition_order(rng, table)
-        roots = [cid for cid in range(len(table)) if table[cid].mixin]
+        roots = [cid for cid in range(len(table)) if bare_root_ok(table[cid])]
         rng.shuffle(roots)                       # call order: lazily compiled owners meet shared classes in this order
         call = gen_ns(rng, 0.2) if (any(table[r].o.fdl for r in roots) and rng.random() < 0.4) else None
         src = table_source(table, call, order)
@@ -1112,6 +1250,10 @@ def run_nested(ctx: vlib.Ctx, ncases: list[str], ninfo: list):
         ctx.hist("nested_classes", str(len(table)))
         for c in table[1:]:
             ctx.hist("nested_kind", "mixin" if c.mixin else ("plain+Config" if c.o != Opts() else "plain"))
+            if c.generic:
+                ctx.hist("generic_binding", c.targ or "<bare>")
+        if dcases is not None and any(c.generic for c in table):
+            declared_cases(table, ns, dcases)
         for rid in roots[:3]:
             root = table[rid]
             ctx.hist("nested_root", "class0" if rid == 0 else "inner-mixin-as-root")
@@ -1121,6 +1263,59 @@ def run_nested(ctx: vlib.Ctx, ncases: list[str], ninfo: list):
                 rcall = call if root.o.fdl else None
                 eval_nested(ctx, table, order, src, ns, rid, gen_tree(rng, table, rid), kon, kba, rcall, ncases, ninfo)
         unload(ns)
+
+
+def eval_codec_nested(ctx: vlib.Ctx, table, src, ns, rid: int, t, dd, use_json: bool, ccases, cinfo, stream="codec-nested"):
+    """one BasicEncoder / JSONEncoder(<class rid as its users name it>, default_dialect=dd).encode(x) against the hereditary
+    reference; appends the Coq case"""
+    import json as _json
+    from mashumaro.codecs.basic import BasicEncoder
+    from mashumaro.codecs.json import JSONEncoder
+    rep = {"kind_of_case": "codec-nested", "source": src, "cls": cls_ref(table[rid], rid, "C"), "twin": cls_ref(table[rid], rid, "P"),
+           "instance": tree_src(table, t, "C"), "twin_instance": tree_src(table, t, "P"),
+           "entry": "json-codec" if use_json else "codec", "kwargs": "", "default_dialect": "DefD" if dd is not None else None}
+    inst = eval(rep["instance"], ns)
+    twin = eval(rep["twin_instance"], ns)
+    try:
+        plain = BasicEncoder(eval(cls_ref(table[rid], rid, "P"), ns)).encode(twin)
+    except Exception as ex:
+        rep["expected"] = "a mapping"
+        ctx.fail(f"codec: the option-free twin raised {type(ex).__name__}: {ex}"[:300], rep,
+                 {"kind": "plain-raised-" + type(ex).__name__, "entry": "codec-nested"})
+        return
+    hits: dict = {}
+    expected = walk(table, ns, t, inst, plain, (rid,), ALL_FLAGS, (None, None, None), "spec", hits, codec=(dd,))
+    rep["expected"] = repr(expected)
+    rep["plain"] = repr(plain)
+    ctx.count((stream, repr(table), rid, repr(t), dd, use_json))
+    ctx.hist("entry", stream)
+    ctx.hist("codec_root", ("mixin" if table[rid].mixin else "plain") + ("/specialised-generic" if table[rid].generic and table[rid].targ else ""))
+    try:
+        ddc = ns["DefD"] if dd is not None else None
+        if use_json:
+            observed = _json.loads(JSONEncoder(eval(rep["cls"], ns), default_dialect=ddc).encode(inst))
+        else:
+            observed = BasicEncoder(eval(rep["cls"], ns), default_dialect=ddc).encode(inst)
+    except Exception as ex:
+        rep["observed"] = f"{type(ex).__name__}: {ex}"
+        ctx.fail(f"codec {rep['instance']} (default_dialect={dd}) raised {type(ex).__name__}: {ex}"[:400], rep,
+                 {"kind": "raised-" + type(ex).__name__, "entry": "codec-nested"})
+        return
+    rep["observed"] = repr(observed)
+    enc = PvEnc()
+    ccases.append(f"({coq_table(table, ns, enc)}, ({rid}%nat, {coq_node(table, t, inst, plain, enc)}), "
+                  f"{coq_ns(dd)}, (Some {coq_tree_value(observed, enc)}), {coq_bool(not hits)})")
+    cinfo.append(rep)
+    rep["_ok"] = typed(observed) == typed(expected)
+    rep["_kf_zone"] = bool(hits)
+    if typed(observed) != typed(expected):
+        kind = "codec-nested-projection-mismatch"
+        if hits.get("tvb"):
+            predicted = walk(table, ns, t, inst, plain, (rid,), ALL_FLAGS, (None, None, None), "kf", {}, codec=(dd,))
+            if typed(predicted) == typed(observed):
+                kind = "omit-none-typevar-bound"
+        ctx.fail(f"codec {rep['instance']} with default_dialect={dd} encodes to {observed!r}, hereditary projection of the "
+                 f"plain output is {expected!r}"[:500], rep, {"kind": kind, "entry": "codec-nested"})
 
 
 def run_codec_nested(ctx: vlib.Ctx, ccases: list[str], cinfo: list):
@@ -1138,46 +1333,7 @@ def run_codec_nested(ctx: vlib.Ctx, ccases: list[str], cinfo: list):
         src = table_source(table, None, order) + (dialect_source("DefD", dd) if dd is not None else "")
         ns = load(src)
         for rid in rng.sample(range(len(table)), min(2, len(table))):
-            t = gen_tree(rng, table, rid, subs=False)
-            use_json = rng.random() < 0.3
-            rep = {"kind_of_case": "codec-nested", "source": src, "cls": f"C{rid}", "twin": f"P{rid}",
-                   "instance": tree_src(table, t, "C"), "twin_instance": tree_src(table, t, "P"),
-                   "entry": "json-codec" if use_json else "codec", "kwargs": "", "default_dialect": "DefD" if dd is not None else None}
-            inst = eval(rep["instance"], ns)
-            twin = eval(rep["twin_instance"], ns)
-            try:
-                plain = BasicEncoder(ns[f"P{rid}"]).encode(twin)
-            except Exception as ex:
-                rep["expected"] = "a mapping"
-                ctx.fail(f"codec: the option-free twin raised {type(ex).__name__}: {ex}"[:300], rep,
-                         {"kind": "plain-raised-" + type(ex).__name__, "entry": "codec-nested"})
-                continue
-            hits: dict = {}
-            expected = walk(table, ns, t, inst, plain, (rid,), ALL_FLAGS, (None, None, None), "spec", hits, codec=(dd,))
-            rep["expected"] = repr(expected)
-            rep["plain"] = repr(plain)
-            ctx.count(("codec-nested", repr(table), rid, repr(t), dd, use_json))
-            ctx.hist("entry", "codec-nested")
-            ctx.hist("codec_root", "mixin" if table[rid].mixin else "plain")
-            try:
-                ddc = ns["DefD"] if dd is not None else None
-                if use_json:
-                    observed = _json.loads(JSONEncoder(ns[f"C{rid}"], default_dialect=ddc).encode(inst))
-                else:
-                    observed = BasicEncoder(ns[f"C{rid}"], default_dialect=ddc).encode(inst)
-            except Exception as ex:
-                rep["observed"] = f"{type(ex).__name__}: {ex}"
-                ctx.fail(f"codec {rep['instance']} (default_dialect={dd}) raised {type(ex).__name__}: {ex}"[:400], rep,
-                         {"kind": "raised-" + type(ex).__name__, "entry": "codec-nested"})
-                continue
-            rep["observed"] = repr(observed)
-            enc = PvEnc()
-            ccases.append(f"({coq_table(table, ns, enc)}, ({rid}%nat, {coq_node(table, t, inst, plain, enc)}), "
-                          f"{coq_ns(dd)}, (Some {coq_tree_value(observed, enc)}), {coq_bool(not hits)})")
-            cinfo.append(rep)
-            if typed(observed) != typed(expected):
-                ctx.fail(f"codec {rep['instance']} with default_dialect={dd} encodes to {observed!r}, hereditary projection of the "
-                         f"plain output is {expected!r}"[:500], rep, {"kind": "codec-nested-projection-mismatch", "entry": "codec-nested"})
+            eval_codec_nested(ctx, table, src, ns, rid, gen_tree(rng, table, rid, subs=False), dd, rng.random() < 0.3, ccases, cinfo)
         unload(ns)
 
 
@@ -1216,6 +1372,118 @@ def run_history(ctx: vlib.Ctx, ncases: list[str], ninfo: list):
                     unload(ns)
 
 
+DECLARED_DEFS = """
+Definition P0 t d := {| p_name := "f"; p_alias := None; p_ty := t; p_trivial := true; p_default := d; p_omit := false |}.
+(* the TRANSLATED is_field_nullable on the declared type = the real one on the real class; the computed domain = the
+   harness's; inside the domain the model's `nullable` of the plan with the RESOLVED type = the real one *)
+Definition dcase_ok (c: dty * dflt * bool * bool) : bool :=
+  match c with (d, df, py, in_dom) =>
+    Bool.eqb (dty_ok d) in_dom &&
+    match is_field_nullable (enc_default df) (enc_dty d) with Ok (KBool b) => Bool.eqb b py | _ => false end &&
+    (negb (dty_ok d) || Bool.eqb (nullable (P0 (resolve d) df)) py) end.
+"""
+
+
+def declared_cases(table, ns, dcases: dict):
+    """for every class of the table: (declared type, default, is_field_nullable of the REAL class as its users specialise
+    it, in the domain of K17_nullable_declared_partial) per leaf field"""
+    for cid, c in enumerate(table):
+        fs = [f for f in c.fields if isinstance(f, FieldSpec)]
+        targs = (eval(c.targ, ns),) if (c.generic and c.targ) else ()
+        py = real_nullables(ns, f"C{cid}", fs, targs)
+        if len(py) != len(fs):                       # the builder could not be asked: a case that never holds
+            dcases[f"(DTy TyPlain, DNo, true, true) (* C{cid}: is_field_nullable not callable *)"] = None
+            continue
+        for f, b in zip(fs, py):
+            d = "DNo" if f.dkind == "no" else ("(DFac (POpq 0))" if f.dkind == "fac" else
+                                               "(DVal PNone)" if f.dsrc == "None" else "(DVal (POpq 0))")
+            dcases[f"({f.sh.dty}, {d}, {coq_bool(b)}, {coq_bool(not f.sh.bound_var)})"] = None
+
+
+def run_generic(ctx: vlib.Ctx, ncases: list[str], ninfo: list, ccases: list[str], cinfo: list, dcases: dict):
+    """systematic (every run, every seed): a generic dataclass G(Generic[T]) with `gv: T` under every binding of
+    GENERIC_SHAPES (bare, int, date, Optional[...], a wider union with None, Any) -- mixin / plain with Config / plain
+    without Config -- with omit_none coming from its Config, its Config.dialect, the owner's forwarded keyword or the codec's
+    default dialect, referenced through a direct, Optional, List, Dict and Union field; gv holds None and not None"""
+    rng = ctx.rng
+    other = NCls(Opts(), (FieldSpec("z", "optint", "val", "None", None, False),), False)
+    shapes = [DcField("i", (1,), False, "in", False), DcField("i", (1,), True, None, False),
+              DcField("i", (1,), False, None, False, many=True), DcField("i", (1,), False, None, False, mapping=True),
+              DcField("i", (1, 2), False, None, False)]
+    for targ, gsh in list(GENERIC_SHAPES.items()) + [("<B>", BOUND_SHAPE)]:
+        gv = FieldSpec("gv", gsh.key, "no", None, "GV", False)
+        leaf = FieldSpec("y", "optint", "val", "None", None, False)
+        if gsh is BOUND_SHAPE:
+            gk = dict(generic=True, targ="", tvar="B")
+            ga = FieldSpec("ga", "int_none", "val", "None", None, False)
+        else:
+            gk = dict(generic=True, targ=targ)
+            ga = FieldSpec("ga", GENERIC_ANN_SHAPES[targ].key, "no", None, "GA", False)
+        inner_kinds = [
+            NCls(Opts(cfg=("T", "U", "U"), fdl=True), (gv, leaf, ga), True, **gk),
+            NCls(Opts(cfgd=("T", "U", "T"), fon=True), (leaf, ga, gv), True, **gk),
+            NCls(Opts(cfg=("T", "U", "U")), (gv, leaf), False, **gk),
+            NCls(Opts(), (ga, gv, leaf), False, **gk),
+        ]
+        for ik, inner in enumerate(inner_kinds):
+            f = shapes[(ik + rng.randrange(len(shapes))) % len(shapes)]
+            outer = NCls(Opts(cfg=(rng.choice(TRI), "U", "U"), fon=ik == 1 or rng.random() < 0.3, fdl=ik == 0),
+                         (f, FieldSpec("w", "int", "val", "1", "W", False)), True)
+            table = [outer, inner, other]
+            order = [2, 1, 0]
+            dd = ("T", "U", "U")
+            call = ("F", "U", "T")
+            src = table_source(table, call, order) + dialect_source("DefD", dd)
+            ns = load(src)
+            ctx.hist("generic_binding", targ or "<bare>")
+            declared_cases(table, ns, dcases)
+            for gval in gsh.values[:2]:          # the first value is None where the binding admits it
+                t = gen_tree(rng, table, 0)
+                t = force_gv(table, t, gval)
+                for kon in ((None, True, False) if outer.o.fon else (None,)):
+                    eval_nested(ctx, table, order, src, ns, 0, t, kon, None, None, ncases, ninfo, stream="generic")
+                if outer.o.fdl:          # the call dialect reaches the (specialised) generic class
+                    eval_nested(ctx, table, order, src, ns, 0, t, None, None, call, ncases, ninfo, stream="generic")
+                # the specialised class itself as a codec type, omit_none from the codec's default dialect
+                t1 = (1, [gval if isinstance(x, FieldSpec) and x.name in ("gv", "ga") else "None" for x in inner.fields])
+                eval_codec_nested(ctx, table, src, ns, 1, t1, dd if ik != 1 else None, False, ccases, cinfo, stream="generic-codec")
+            unload(ns)
+
+
+def force_gv(table, t, gval: str):
+    """the tree t with the `gv` leaf of every generic node set to gval"""
+    cid, ch = t
+    out = []
+    for f, x in zip(table[cid].fields, ch):
+        if isinstance(f, FieldSpec):
+            out.append(gval if (f.name in ("gv", "ga") and table[cid].generic) else x)
+        elif isinstance(x, list):
+            out.append([force_gv(table, y, gval) for y in x] or [force_gv(table, gen_min_tree(table, f.members[0]), gval)])
+        elif isinstance(x, dict):
+            out.append({k: force_gv(table, y, gval) for k, y in x.items()} or {"k0": force_gv(table, gen_min_tree(table, f.members[0]), gval)})
+        elif isinstance(x, str):
+            out.append(force_gv(table, gen_min_tree(table, f.members[0]), gval))     # an Optional field holding None: fill it
+        else:
+            out.append(force_gv(table, x, gval))
+    return (cid, out)
+
+
+def gen_min_tree(table, cid: int):
+    ch = []
+    for f in table[cid].fields:
+        if isinstance(f, FieldSpec):
+            ch.append(f.sh.values[-1])
+        elif f.many:
+            ch.append([])
+        elif f.mapping:
+            ch.append({})
+        elif f.optional:
+            ch.append("None")
+        else:
+            ch.append(gen_min_tree(table, f.members[0]))
+    return (cid, ch)
+
+
 # ---------------------------------------------------------------------------
 # run
 # ---------------------------------------------------------------------------
@@ -1224,7 +1492,7 @@ def record_failure(ctx, ev: Eval, rep: dict, sig: dict):
     ctx.fail(ev.what[:300], rep, sig)
 
 
-def run_flat(ctx: vlib.Ctx, cases: list[str], case_info: list):
+def run_flat(ctx: vlib.Ctx, cases: list[str], case_info: list, ecases: dict | None = None):
     rng = ctx.rng
     n_classes = ctx.budget(260, 2600)
     for ci in range(n_classes):
@@ -1245,6 +1513,8 @@ def run_flat(ctx: vlib.Ctx, cases: list[str], case_info: list):
             ctx.count(flat_key(fields, o0, vals))
             record_failure(ctx, ev, flat_replay_dict(ev), flat_signature(ev))
             continue
+        if ecases is not None and entry != "codec" and ci % 3 == 0:
+            emitted_cases(ns, "X", fields, ns["CallD"] if o0.call is not None else None, ecases)
         variants = [o0] if entry == "codec" else kw_variants(o0, rng, 2)
         for o in variants:
             for _ in range(2):
@@ -1374,7 +1644,13 @@ def run(ctx: vlib.Ctx):
         "owners), random instance trees, root keyword arguments incl. call dialect; the nested part of every output is "
         "compared with the nested class's own projection (own plain serialization when it set nothing); history: "
         "systematic owner(lazy?) x nested kind x field kind x first call with/without dialect=; edge: systematic special "
-        "defaults (NaN, tuples of enum members / paths, 0.0, True) x source of omit_default x omit_none x features. "
+        "defaults (NaN, tuples of enum members / paths, 0.0, True) x source of omit_default x omit_none x features; "
+        "generic: classes C(Generic[T]) with gv: T / ga: Annotated[T, ...] inside the nested tables (30 %) and systematically "
+        "under every binding (bare, int, date, Optional[int], Optional[date], Union[int, str, None], Any, a bounded variable "
+        "left unbound) x mixin / plain / plain+Config x direct / Optional / List / Dict / Union field x keyword / call dialect / "
+        "codec of the specialised class; declared: (declared type, default) of every leaf field of those tables against "
+        "is_field_nullable of the real (specialised) builder; emitted: the lines _pack_method_set_value of a real builder writes "
+        "for every field of every third flat class x by_alias feature x omit_default. "
         "distinct = (schema shape, option vector, values)")
     ctx.trusted += [
         "OptProj.v: hand-written model of the generated to_dict body (kwargs-vs-literal form, nullable / omit_default / "
@@ -1393,6 +1669,14 @@ def run(ctx: vlib.Ctx):
         "is_annotated/is_final/is_optional/is_type_var_any as tag tests (is_optional's source text is checked), the "
         "`while True` unwrapping loop as bounded iteration with fuel 1 + nesting depth; k18_pack_bookkeeping.py: "
         "_get_field_packer abstracted as its three results (could_be_none = is_field_nullable is checked textually)",
+        "tools/kernels/k108a_set_value.py + OptEmit.v: _pack_method_set_value / __pack_method_set_value translated as functions "
+        "returning the emitted lines as structured values (f-string pieces, blocks); OptEmit.run_lines is the hand-written READING "
+        "of those shapes (if by_alias / else, if value != <literal>, the NaN test, kwargs[key] = packed); get_field_default, "
+        "get_field_default_literal, the NaN test on the default and the serialize_by_alias lookup (K3) are parameters; the text "
+        "rendered from the translated lines is compared with the text the real emitter writes on every run",
+        "K17Proofs.dty: declared types with type variables (bound by the specialisation / left unbound with a bound); "
+        "get_real_type is translated as PyK_c08.ty_real (substitution at the top of the type only -- what is_field_nullable "
+        "inspects); compared with the real builder of the specialised class on every run",
         "tools/kernels/k8_packflags.py: is_code_generation_option_enabled abstracted as a namespace lookup (source "
         "text of the method is checked), pass_encoder=False slice of get_pack_method_flags; K3 abstraction of "
         "self.dialect / Config.dialect / Config / default_dialect as four namespaces (tools/gen_kernels.py)",
@@ -1404,7 +1688,11 @@ def run(ctx: vlib.Ctx):
         "None (vals_ok/none_ok); custom serialization strategies returning None are outside",
         "value equals default: Python == on the attribute value; a NaN default is matched by NaN",
         "excluded corners, each proved refuted in Coq and listed as a known finding: call dialect vs forwarded keyword "
-        "defaults (flag_defaults_ok), union member flags (ok_h: flags_eqb)",
+        "defaults (flag_defaults_ok), union member flags (ok_h: flags_eqb), a bounded type variable left unbound "
+        "(K17_bound_refuted; vals_ok excludes its None); oracle-only known finding: dialect-specific method of a specialised "
+        "generic class (dialect-drops-type-args; such calls are kept out of the Coq cases)",
+        "a specialised generic class is a Union member in first position only (after another member the option-free twin "
+        "itself serializes it with the unspecialised method: union packing, outside this property)",
         "nested: mixin roots (codec path forwards no flags and hands its default dialect to every class by design); "
         "dataclass-typed fields have no default other than None / default_factory=list",
         "hooks, context values, format encoders (to_json ...) and lazy compilation do not change the mapping: exercised "
@@ -1416,8 +1704,9 @@ def run(ctx: vlib.Ctx):
     ctx.theorems("props/C08_kernel_K8.vo", ["K8_forward", "K8_use_kwargs"], kernels=["K8"])
     ctx.theorems("props/C08_kernel_K13F.vo", ["K13F_defaults", "C08_ctx_kw_defaults"], kernels=["K13F", "K3"])
     ctx.theorems("props/C08_kernel_K14.vo", ["K14_passdown", "K14_pass_dd"], kernels=["K14"])
-    ctx.theorems("props/C08_kernel_K17.vo", ["K17_nullable"], kernels=["K17"])
+    ctx.theorems("props/C08_kernel_K17.vo", ["K17_nullable", "K17_nullable_declared_partial", "K17_bound_refuted"], kernels=["K17"])
     ctx.theorems("props/C08_kernel_K18.vo", ["K18_bookkeeping", "K18_use_kwargs"], kernels=["K18", "K8"])
+    ctx.theorems("props/C08_kernel_K108a.vo", ["K108a_set_value", "K108a_emit_kw"], kernels=["K108a"])
     ctx.theorems("props/C08_project.vo", thm)
     ctx.theorems("props/C08_fix.vo", ["C08_project_fixed_full"])
     ctx.theorems("props/C08_nested.vo", ["C08_nested_partial", "C08_union_flags_refuted", "C08_subclass_flags_refuted", "C08_forwarded_exactly", "C08_no_leak",
@@ -1437,14 +1726,19 @@ def run(ctx: vlib.Ctx):
 
     cases: list[str] = []
     info: list = []
-    run_flat(ctx, cases, info)
+    ecases: dict = {}
+    run_flat(ctx, cases, info, ecases)
     run_lattice(ctx, cases, info)
     run_edge(ctx, cases, info)
 
     ncases: list[str] = []
     ninfo: list = []
+    ccases: list[str] = []
+    cinfo: list = []
     run_history(ctx, ncases, ninfo)
-    run_nested(ctx, ncases, ninfo)
+    dcases: dict = {}
+    run_generic(ctx, ncases, ninfo, ccases, cinfo, dcases)
+    run_nested(ctx, ncases, ninfo, dcases)
 
     name = "to_dict-model-vs-generated-code"
     bad, log = vlib.coq_bad_idx("c08_flat", "OptProj", "", COQ_DEFS, cases, "case_ok",
@@ -1470,8 +1764,6 @@ def run(ctx: vlib.Ctx):
         if bad:
             ctx.not_shown("correspondence " + name, detail)
 
-    ccases: list[str] = []
-    cinfo: list = []
     run_codec_nested(ctx, ccases, cinfo)
     name = "codec-nested-model-vs-generated-code"
     bad, log = vlib.coq_bad_idx("c08_codec", "OptProj OptNested", "", NESTED_DEFS, ccases, "ccase_ok",
@@ -1481,11 +1773,43 @@ def run(ctx: vlib.Ctx):
         ctx.correspondence(name, len(ccases), -1, log)
         ctx.not_shown("correspondence " + name, log)
     else:
+        stale = [i for i in bad if cinfo[i]["_ok"] and cinfo[i]["_kf_zone"]]
+        bad = [i for i in bad if i not in set(stale)]
+        if stale:
+            ctx.notes.append(f"model-stale: {len(stale)} codec correspondence cases inside the signatures of listed findings "
+                             f"(omit-none-typevar-bound) now satisfy the property")
         detail = ""
         if bad:
             r = cinfo[bad[0]]
             detail = f"{len(bad)} cases, first: {r['entry']} {r['instance']} default_dialect {r['default_dialect']} observed {r['observed']}\n{r['source']}"
         ctx.correspondence(name, len(ccases), len(bad), detail)
+        if bad:
+            ctx.not_shown("correspondence " + name, detail)
+
+    name = "emitted-text-K108a-vs-_pack_method_set_value"
+    elist = list(ecases)
+    bad, log = vlib.coq_bad_idx("c08_emit", "OptProj PyK_c08 OptEmit", "From VerifGen Require Import K108a.", EMIT_DEFS, elist,
+                                "ecase_ok", "kv * string * bool * bool * string * option string * bool * bool * list string",
+                                shard=400, needs=["theories/OptEmit.vo"])
+    if bad is None:
+        ctx.correspondence(name, len(elist), -1, log)
+        ctx.not_shown("correspondence " + name, log)
+    else:
+        detail = f"{len(bad)} cases, first: {elist[bad[0]][:600]}" if bad else ""
+        ctx.correspondence(name, len(elist), len(bad), detail)
+        if bad:
+            ctx.not_shown("correspondence " + name, detail)
+
+    name = "declared-type-nullable-vs-is_field_nullable"
+    dlist = list(dcases)
+    bad, log = vlib.coq_bad_idx("c08_declared", "OptProj PyK_c08 K17Proofs", "From VerifGen Require Import K17.", DECLARED_DEFS, dlist,
+                                "dcase_ok", "dty * dflt * bool * bool", shard=400, needs=["theories/K17Proofs.vo"])
+    if bad is None:
+        ctx.correspondence(name, len(dlist), -1, log)
+        ctx.not_shown("correspondence " + name, log)
+    else:
+        detail = f"{len(bad)} cases, first: {dlist[bad[0]]}" if bad else ""
+        ctx.correspondence(name, len(dlist), len(bad), detail)
         if bad:
             ctx.not_shown("correspondence " + name, detail)
 
@@ -1530,7 +1854,7 @@ def replay(rep: dict) -> int:
     try:
         if rep.get("kind_of_case") == "codec-nested":
             from mashumaro.codecs.basic import BasicEncoder
-            plain = BasicEncoder(ns[rep["twin"]]).encode(twin)
+            plain = BasicEncoder(eval(rep["twin"], ns)).encode(twin)
         else:
             plain = twin.to_dict()
     except Exception as ex:
@@ -1540,14 +1864,14 @@ def replay(rep: dict) -> int:
             import json as _json
             from mashumaro.codecs.json import JSONEncoder
             dd = ns[rep["default_dialect"]] if rep.get("default_dialect") else None
-            got = _json.loads(JSONEncoder(ns[rep["cls"]], default_dialect=dd).encode(inst))
+            got = _json.loads(JSONEncoder(eval(rep["cls"], ns), default_dialect=dd).encode(inst))
         elif rep.get("entry") == "toml":
             import tomllib
             got = tomllib.loads(eval(f"_x.to_toml({rep['kwargs']})", dict(ns, _x=inst)))
         elif rep.get("entry") == "codec":
             from mashumaro.codecs.basic import BasicEncoder
             dd = ns[rep["default_dialect"]] if rep.get("default_dialect") else None
-            got = BasicEncoder(ns[rep["cls"]], default_dialect=dd).encode(inst)
+            got = BasicEncoder(eval(rep["cls"], ns), default_dialect=dd).encode(inst)
         else:
             got = eval(f"_x.to_dict({rep['kwargs']})", dict(ns, _x=inst))
     except Exception as ex:
